@@ -124,8 +124,11 @@ def qualname(node: ast.AST) -> str:
 
 
 class Repo:
-    def __init__(self, root: str = '/repo'):
+    def __init__(self, root: str = '/repo', overlay: dict | None = None):
+        """overlay: {relpath: source text} replaces the on-disk content of those files (used by the checker's
+        self-validation to analyse mutants / rewrites of the current tree without writing them anywhere)."""
         self.root = root
+        overlay = overlay or {}
         self.modules: dict[str, Module] = {}        # by relpath
         self.by_dotted: dict[str, Module] = {}
         pkgroot = os.path.join(root, PKG)
@@ -138,8 +141,11 @@ class Repo:
                 if fn.endswith('.py'):
                     full = os.path.join(dirpath, fn)
                     rel = os.path.relpath(full, root)
-                    with open(full, encoding='utf-8') as f:
-                        src = f.read()
+                    if rel in overlay:
+                        src = overlay[rel]
+                    else:
+                        with open(full, encoding='utf-8') as f:
+                            src = f.read()
                     try:
                         m = Module(self, rel, src)
                     except SyntaxError as exc:
